@@ -297,6 +297,9 @@ func (t *Tree) startParse(lex *lexer) {
 
 // stopParse terminates parsing.
 func (t *Tree) stopParse() {
+	if t.lex != nil {
+		t.lex.drain()
+	}
 	t.lex = nil
 }
 
